@@ -912,7 +912,7 @@ pub fn harvested_names() -> &'static Vec<String> {
                 }
             }
         }
-        walk(std::path::Path::new("/repo/src"), &mut out);
+        walk(std::path::Path::new(&format!("{}/src", crate::engine::repo_dir())), &mut out);
         out.into_iter().collect()
     })
 }
